@@ -1,4 +1,5 @@
 import Verif.Impl.LuaApi
+import Verif.Impl.RunObs
 import Driver.Trap
 /-  `luaapi` verb (property C12): replay the script's API calls on the model machine. -/
 namespace Driver
@@ -32,62 +33,85 @@ def showRet : ApiRet → Option String
   | .bytes l => some ("m" ++ String.join (l.map hexB))
   | .fault => some "FAULT"
 
-structure ApiState where
-  m : Machine SBus
+/-- bus state of the API replay: memory, the published cycle counter, everything `rec` recorded -/
+structure TB where
+  sb : SBus
+  cyc : Nat
   out : Array String
 
-def runOpsApi (la pl : Nat) (st : ApiState) (ops : List String) : Option ApiState :=
-  ops.foldlM (fun st w =>
-    if w == "la" then some { st with out := st.out.push (toString la) }
-    else if w == "pl" then some { st with out := st.out.push (toString pl) }
+def tbBus : Bus TB where
+  load s a := match sbus.load s.sb a with | (r, sb') => (r, { s with sb := sb' })
+  store s a v r := match sbus.store s.sb a v r with | (res, sb') => (res, { s with sb := sb' })
+
+/-- `function trap(c) rec(get_cycles()); rec(c) end` -/
+def cycScript : Script TB := fun c r s => (.ok r, { s with out := (s.out.push (toString s.cyc)).push (toString c.toNat) })
+
+abbrev AM := Machine (Trapped TB)
+
+def pushOut (m : AM) (s : String) : AM := { m with mem := { m.mem with inner := { m.mem.inner with out := m.mem.inner.out.push s } } }
+
+def runOpsApi (bus : Bus (Trapped TB)) (la pl : Nat) (m : AM) (ops : List String) : Option AM :=
+  ops.foldlM (fun m w =>
+    if w == "la" then some (pushOut m (toString la))
+    else if w == "pl" then some (pushOut m (toString pl))
     else do
       let op ← parseApiOp w
-      let (ret, m') := apiStep sbus st.m op
-      some { m := m', out := match showRet ret with | some s => st.out.push s | none => st.out }) st
+      let (ret, m') := apiStep bus m op
+      some (match showRet ret with | some s => pushOut m' s | none => m')) m
 
-/-- `luaapi M SPEC LOADAT ITERS | phase-1 ops | phase-2 ops => ok|error | tokens` -/
+def observerCode : List Nat := [0x8D, 0x00, 0x03, 0x8E, 0x01, 0x03, 0x8C, 0x02, 0x03, 0x08, 0x68, 0x8D, 0x03, 0x03, 0xBA,
+  0x8E, 0x04, 0x03, 0xAD, 0x20, 0x03, 0x49, 0xFF, 0x8D, 0x21, 0x03, 0x00,
+  0xE8, 0xC8, 0x8E, 0x05, 0x03, 0x8C, 0x06, 0x03, 0x0A, 0x00]
+
+/-- INX; STA $7F00; INY; INY; STA $7F00; NOP; STX $7F00; ASL $7F00,X ... BRK -/
+def trapObserverCode : List Nat := [0xE8, 0x8D, 0x00, 0x7F, 0xC8, 0xC8, 0x8D, 0x00, 0x7F, 0xEA, 0x8E, 0x00, 0x7F,
+  0xA2, 0x01, 0xFE, 0xFF, 0x7E, 0x00]
+
+/-- `luaapi M SPEC LOADAT ITERS TRAP | phase-1 ops | phase-2 ops => ok|error | tokens` -/
 def handleLuaApi (line : String) : String :=
   let (req, res) := splitOnce line "=>"
   let (gres, gout) := splitOnce res "|"
   match req.splitOn "|" with
   | [hd, p1, p2] =>
     match words hd with
-    | [_, m, spec, las, its] =>
+    | [_, m, spec, las, its, tr] =>
       let parsed : Option (CpuModel × Nat × Nat) := do
         let model ← if m == "0" then some CpuModel.m6502 else if m == "1" then some CpuModel.m65C02 else none
         some (model, ← parseHex las, ← its.toNat?)
       match parsed with
       | none => "bad"
       | some (model, la, iters) =>
-        let code : List Nat := [0x8D, 0x00, 0x03, 0x8E, 0x01, 0x03, 0x8C, 0x02, 0x03, 0x08, 0x68, 0x8D, 0x03, 0x03, 0xBA,
-          0x8E, 0x04, 0x03, 0xAD, 0x20, 0x03, 0x49, 0xFF, 0x8D, 0x21, 0x03, 0x00,
-          0xE8, 0xC8, 0x8E, 0x05, 0x03, 0x8C, 0x06, 0x03, 0x0A, 0x00]
+        let trap := tr == "1"
+        let code := if trap then trapObserverCode else observerCode
         let sb0 : SBus := { mem := loadCode [] la code, trace := #[], budget := 1000000 }
+        let bus := trapBus tbBus 0x7F00 (if trap then some cycScript else none)
+        let setCyc : Nat → Trapped TB → Trapped TB := fun c s => { s with inner := { s.inner with cyc := c } }
         -- Execute: cpu.PC = loadAddress; then per iteration arrange, RunExt(cpu.PC, false), assert
-        let st0 : ApiState := { m := { regs := { regs0 with pc := BitVec.ofNat 16 la }, cycles := 0, mem := sb0 }, out := #[] }
-        let rec loop : Nat → ApiState → Option ApiState
+        let m0 : AM := { regs := { regs0 with pc := BitVec.ofNat 16 la }, cycles := 0,
+                         mem := { inner := { sb := sb0, cyc := 0, out := #[] }, log := [] } }
+        let rec loop : Nat → AM → Option AM
           | 0, st => some st
           | n + 1, st => do
-            let st ← runOpsApi la code.length st (words p1)
-            let (stop, m') := Impl.runExt (Generated.opTable model) Generated.consts model sbus 5000 st.m.regs.pc false st.m
+            let st ← runOpsApi bus la code.length (setCyc st.cycles st.mem |> fun mm => { st with mem := mm }) (words p1)
+            let (stop, m') := Impl.runExtC (Generated.opTable model) Generated.consts model bus setCyc 5000 st.regs.pc false st
             if kindOf stop != "halt" then none
-            let st ← runOpsApi la code.length { st with m := m' } (words p2)
+            let st ← runOpsApi bus la code.length m' (words p2)
             loop n st
-        match loop iters st0 with
+        match loop iters m0 with
         | none => "agree | specok | luaapi.model-stop"
         | some st =>
-          let mine := " ".intercalate st.out.toList
+          let ml := st.mem.inner.out.toList
+          let mine := " ".intercalate ml
           let go := " ".intercalate (words gout)
           let gl := words gout
-          let ml := st.out.toList
           let firstDiff := ((gl.zip ml).zipIdx.find? fun ((a, b), _) => a != b).map (·.2)
           let tag := match firstDiff with
             | some i => s!"token{i}:go={gl.getD i "?"}:model={ml.getD i "?"}"
             | none => s!"length:go={gl.length}:model={ml.length}"
           let ok := gres.trimAscii.toString == "ok" && go == mine
           let d := if ok then "agree" else s!"DIFF api:{tag}"
-          let v := if ok then "specok" else s!"VIOL C12:api:{tag}@spec={spec}:model={m}"
-          s!"{d} | {v} | luaapi.{spec}.i{iters}"
+          let v := if ok then "specok" else s!"VIOL C12:api:{tag}@spec={spec}:model={m}:trap={tr}"
+          s!"{d} | {v} | luaapi.{spec}.i{iters}.t{tr}"
     | _ => "bad"
   | _ => "bad"
 
